@@ -18,16 +18,16 @@ theorem hashPhase_total (t : SymTab) (ht : TabOk t) (hsmall : ∀ h, t.hash = so
   | some h =>
     have hs := ht.hash h hh
     dsimp only
-    have h1 : ∃ r, (if (h.stype == BitVec.ofNat 32 SHT_HASH) = true then TQ.hashLookup t h name a
+    have h1 : ∃ r, (if tq_sym_hash_is_sysv h.stype = true then TQ.hashLookup t h name a
         else pure (false, a)) = .ok r := by
-      by_cases hc : (h.stype == BitVec.ofNat 32 SHT_HASH) = true
+      by_cases hc : tq_sym_hash_is_sysv h.stype = true
       · rw [if_pos hc]; exact hashLookup_total t ht h hs name a
       · rw [if_neg hc]; exact ⟨_, rfl⟩
     obtain ⟨r1, hr1⟩ := h1
     rw [hr1]
     dsimp only
-    by_cases hc : (h.stype == BitVec.ofNat 32 SHT_GNU_HASH || h.stype == BitVec.ofNat 32 DT_GNU_HASH) = true
-    · rw [if_pos hc]; exact gnuLookup_total t ht h hs (hsmall h hh) name r1.2
+    by_cases hc : tq_sym_hash_is_gnu h.stype = true
+    · rw [if_pos hc, TQTie.gnuLookupT_dispatch]; exact gnuLookup_total t ht h hs (hsmall h hh) name r1.2
     · rw [if_neg hc]; exact ⟨_, rfl⟩
 
 /-- `get_symbol(name, …)` : hash phase, then the linear fallback over `get_symbols_num()` entries -/
@@ -37,12 +37,12 @@ theorem getByName_total (t : SymTab) (ht : TabOk t) (hsmall : ∀ h, t.hash = so
   obtain ⟨r, hr⟩ := hashPhase_total t ht hsmall name a
   rw [hr]
   dsimp only
-  by_cases h1 : r.1 = true
-  · rw [if_pos h1]; exact ⟨_, rfl⟩
-  rw [if_neg h1]
-  obtain ⟨n, hn, -, -⟩ := symbolsNum_spec t
-  rw [hn]
-  exact linearGo_total t ht name _ _ _
+  by_cases h1 : tq_sym_linear_needed r.1 = true
+  · rw [if_pos h1]
+    obtain ⟨n, hn, -, -⟩ := symbolsNum_spec t
+    rw [hn]
+    exact linearGo_total t ht name _ _ _
+  · rw [if_neg h1]; exact ⟨_, rfl⟩
 
 /-! ### arrays and symbol-version indices -/
 
@@ -155,6 +155,7 @@ theorem needLoop_total (e : Enc) {b : SecBuf} (hs : Sec b) {d : Bytes} (hd : b.d
   | succ k ih =>
     intro i pos va hp hf hi hva
     unfold TQ.needLoop
+    rw [TQTie.vr_i_incr_eq]
     by_cases hc : vr_loop_cond i no = true
     · rw [if_pos hc]
       have hlt : i.toNat < no.toNat := by simpa [vr_loop_cond, BitVec.ult] using hc
@@ -211,7 +212,7 @@ theorem needGet_total (e : Enc) (b : SecBuf) (hs : Sec b) (str : Option SecBuf) 
       show Elfxx_Verneed.vn_version_off = 0 from rfl, show Elfxx_Vernaux.vna_name_off = 8 from rfl,
       show Elfxx_Vernaux.vna_hash_off = 0 from rfl, show Elfxx_Vernaux.vna_flags_off = 4 from rfl,
       show Elfxx_Vernaux.vna_other_off = 6 from rfl]
-    rw [vrd32_ok hs hd _ 8 (by omega)]
+    rw [vrd32_ok hs hd _ 8 (by omega), TQTie.vr_i_init_eq, TQTie.vr_pos_init_eq]
     dsimp only
     obtain ⟨r, hr, hpost⟩ := needLoop_total e hs hd no (no.toNat + 1) 0 0
       ((vr_aux_off0 (cv32 e) (BitVec.ofNat 32 (hostDecode (slice d 8 4)))).toNat)
@@ -241,10 +242,20 @@ theorem needGet_total (e : Enc) (b : SecBuf) (hs : Sec b) (str : Option SecBuf) 
       rw [vrd32_ok hs hd _ _ (by omega), vrd32_ok hs hd _ _ (by omega)]
       dsimp only
       split
-      · rw [vrd16_ok hs hd _ _ (by omega), vrd32_ok hs hd _ _ (by omega), vrd16_ok hs hd _ _ (by omega),
-          vrd16_ok hs hd _ _ (by omega)]
-        exact ⟨_, rfl⟩
       · exact ⟨_, rfl⟩
+      · rename_i hnb
+        -- past the (generated) null test both names are there: the assignments cannot fault
+        split
+        · rw [vrd16_ok hs hd _ _ (by omega), vrd32_ok hs hd _ _ (by omega), vrd16_ok hs hd _ _ (by omega),
+            vrd16_ok hs hd _ _ (by omega)]
+          exact ⟨_, rfl⟩
+        · rename_i hno
+          exfalso
+          simp only [tq_vr_names_bad, Bool.or_eq_true, not_or, Option.isNone_iff_eq_none] at hnb
+          obtain ⟨h1, h2⟩ := hnb
+          obtain ⟨f, hf⟩ := Option.ne_none_iff_exists'.mp h1
+          obtain ⟨n, hn⟩ := Option.ne_none_iff_exists'.mp h2
+          exact hno f n hf hn
 
 theorem defLoop_total (e : Enc) {b : SecBuf} (hs : Sec b) {d : Bytes} (hd : b.data = some d) (no : BitVec 32) :
     ∀ (fuel : Nat) (i : BitVec 32) (pos : BitVec 64) (va : Nat), pos.toNat + 20 ≤ b.size.toNat →
@@ -259,6 +270,7 @@ theorem defLoop_total (e : Enc) {b : SecBuf} (hs : Sec b) {d : Bytes} (hd : b.da
   | succ k ih =>
     intro i pos va hp hf hi hva
     unfold TQ.defLoop
+    rw [TQTie.vd_i_incr_eq]
     by_cases hc : vd_loop_cond i no = true
     · rw [if_pos hc]
       have hlt : i.toNat < no.toNat := by simpa [vd_loop_cond, BitVec.ult] using hc
@@ -314,7 +326,7 @@ theorem defGet_total (e : Enc) (b : SecBuf) (hs : Sec b) (str : Option SecBuf) (
     simp only [show Elfxx_Verdef.vd_aux_off = 12 from rfl, show Elfxx_Verdef.vd_flags_off = 2 from rfl,
       show Elfxx_Verdef.vd_ndx_off = 4 from rfl, show Elfxx_Verdef.vd_hash_off = 8 from rfl,
       show Elfxx_Verdaux.vda_name_off = 0 from rfl]
-    rw [vrd32_ok hs hd _ 12 (by omega)]
+    rw [vrd32_ok hs hd _ 12 (by omega), TQTie.vd_i_init_eq, TQTie.vd_pos_init_eq]
     dsimp only
     obtain ⟨r, hr, hpost⟩ := defLoop_total e hs hd no (no.toNat + 1) 0 0
       ((vd_aux_off0 (cv32 e) (BitVec.ofNat 32 (hostDecode (slice d 12 4)))).toNat)
@@ -345,8 +357,15 @@ theorem defGet_total (e : Enc) (b : SecBuf) (hs : Sec b) (str : Option SecBuf) (
       dsimp only
       split
       · exact ⟨_, rfl⟩
-      · rw [vrd16_ok hs hd _ _ (by omega), vrd16_ok hs hd _ _ (by omega), vrd32_ok hs hd _ _ (by omega)]
-        exact ⟨_, rfl⟩
+      · rename_i hnb
+        -- past the (generated) null test the name is there: the assignment cannot fault
+        split
+        · rename_i hno
+          exfalso
+          simp only [tq_vd_names_bad, Option.isNone_iff_eq_none] at hnb
+          exact hnb hno
+        · rw [vrd16_ok hs hd _ _ (by omega), vrd16_ok hs hd _ _ (by omega), vrd32_ok hs hd _ _ (by omega)]
+          exact ⟨_, rfl⟩
 
 end C18
 end ElfioVerif
